@@ -35,7 +35,10 @@ TARGETS = {
                          {"type": "object", "properties": {"Vb": {"type": "object", "properties": {"marker_d": {"type": "string"}}, "required": ["marker_d"]}},
                           "required": ["Vb"], "additionalProperties": False}, {"type": "string", "enum": ["Vu"]}]},
     "alias_vec": {"type": "array", "items": {"type": "string"}},
+    # the target definition carries a title that does not sanitise to its key: settings name definitions by KEY
+    "struct_titled": {"title": "A titled target", "type": "object", "properties": {"marker_d": INT}, "required": ["marker_d"]},
 }
+TITLED_NAME = "ATitledTarget"
 
 
 def ref(n):
@@ -134,6 +137,8 @@ def cases(tier, seed):
                 if {"replace", "patch"} <= set(combo) or {"convert", "convert_annot"} <= set(combo) or {"map_btree", "map_vmap"} <= set(combo):
                     continue
                 combos.append(combo)
+        if kind == "struct_titled":
+            combos = [(), ("replace",), ("replace", "derive"), ("derive",), ("replace", "map_btree"), ("replace", "builder")]
         for combo in combos:
             c = {"kind": kind, "features": list(combo), "doc": document(kind), "settings": settings_for(combo)}
             c["id"] = "%s{%s}" % (kind, ",".join(combo))
@@ -229,10 +234,12 @@ def execute(cases_, tier, seed):
         if "replace" in F:
             if "Tgt" in items:
                 probs.append("replaced definition Tgt is still generated")
+            if TITLED_NAME in items:
+                probs.append("replaced definition Tgt is still generated (under the name of its title, %s)" % TITLED_NAME)
             for (i, m, t) in fts:
                 bt = base_fts.get((i, m))
-                if bt is not None and re.search(r"\bTgt\b", bt):
-                    want = re.sub(r"\bTgt\b", REPL, bt).replace("::std::collections::HashMap", mp)
+                if bt is not None and re.search(r"\b(Tgt|%s)\b" % TITLED_NAME, bt):
+                    want = re.sub(r"\b(Tgt|%s)\b" % TITLED_NAME, REPL, bt).replace("::std::collections::HashMap", mp)
                     if t != want:
                         probs.append("%s.%s: type %s, expected %s" % (i, m, t, want))
             if "UAllOf" in items and not any(f["name"] == "marker_d" for f in items["UAllOf"]["body"]["fields"]):
@@ -263,7 +270,7 @@ def execute(cases_, tier, seed):
 
             def subst(bt):
                 if "replace" in F:
-                    bt = re.sub(r"\bTgt\b", REPL, bt)
+                    bt = re.sub(r"\b(Tgt|%s)\b" % TITLED_NAME, REPL, bt)
                 for o, n in ren.items():
                     bt = re.sub(r"\b%s\b" % o, n, bt)
                 return bt.replace("::std::collections::HashMap", mp)
